@@ -63,6 +63,39 @@ fn values(cfg: &Cfg) -> Report {
                 r.ev("map!:input-expression-evaluated-once");
                 r.eq("map!(input expression evaluated once)", || format!("N={}", $n), &(g, g2, g3, evals.get()), &(want, want, want, 3));
             }
+            // the mapper may be any callable *expression*: it is evaluated exactly once (also for N = 0), and a
+            // stateful callable keeps its state across the elements, as with `<[T; N]>::map(make())`
+            {
+                use core::cell::Cell;
+                let makes = Cell::new(0u32);
+                let mk = || {
+                    makes.set(makes.get() + 1);
+                    let n = Cell::new(0usize);
+                    move |x: u32| {
+                        let i = n.get();
+                        n.set(i + 1);
+                        (i, x)
+                    }
+                };
+                let w: [(usize, u32); $n] = input.map(mk());
+                let g: [(usize, u32); $n] = ka::map!(input, mk());
+                let g2: [(usize, u32); $n] = ka::map_!(input, mk());
+                r.ev("map!:mapper-expression-evaluated-once");
+                r.eq("map!(stateful mapper expression)", || format!("N={}", $n), &(g, g2, makes.get()), &(w, w, 3));
+                let makes = Cell::new(0u32);
+                let mk = || {
+                    makes.set(makes.get() + 1);
+                    let acc = Cell::new(0usize);
+                    move |i: usize| {
+                        acc.set(acc.get() + i);
+                        acc.get()
+                    }
+                };
+                let w: [usize; $n] = core::array::from_fn(mk());
+                let g: [usize; $n] = ka::from_fn!(mk());
+                let g2: [usize; $n] = ka::from_fn_!(mk());
+                r.eq("from_fn!(stateful mapper expression)", || format!("N={}", $n), &(g, g2, makes.get()), &(w, w, 3));
+            }
             // the index handed to the closure is a `usize`, whatever the closure does with it (a closure that
             // never pins the type must not see an `i32` by integer fallback): observe width and sign
             {
